@@ -1,6 +1,7 @@
 package sx
 
 import (
+	"crypto/sha256"
 	"fmt"
 	"go/types"
 	"strings"
@@ -505,6 +506,146 @@ func deepCopy(v value) value {
 			}
 		}
 		return m
+	}
+	return v
+}
+
+// ---- canonical (injective) rendering of concrete values: json.Marshal of cache keys ----
+
+func canonRender(v value, sb *strings.Builder) bool {
+	switch x := v.(type) {
+	case nil:
+		sb.WriteString("nil")
+	case bool, int, int8, int16, int32, int64, uint, uint8, uint16, uint32, uint64, uintptr, float32, float64:
+		fmt.Fprintf(sb, "%T:%v", x, x)
+	case string:
+		fmt.Fprintf(sb, "%q", x)
+	case *Sym, symstr:
+		return false
+	case structure:
+		sb.WriteString("{")
+		for _, e := range x {
+			if !canonRender(e, sb) {
+				return false
+			}
+			sb.WriteString(",")
+		}
+		sb.WriteString("}")
+	case array:
+		sb.WriteString("[")
+		for _, e := range x {
+			if !canonRender(e, sb) {
+				return false
+			}
+			sb.WriteString(",")
+		}
+		sb.WriteString("]")
+	case []value:
+		if x == nil {
+			sb.WriteString("null")
+			break
+		}
+		sb.WriteString("[")
+		for _, e := range x {
+			if !canonRender(e, sb) {
+				return false
+			}
+			sb.WriteString(",")
+		}
+		sb.WriteString("]")
+	case iface:
+		if x.t == nil {
+			sb.WriteString("nil")
+			break
+		}
+		sb.WriteString("(" + x.t.String() + ")")
+		return canonRender(x.v, sb)
+	case *value:
+		if x == nil {
+			sb.WriteString("nil")
+			break
+		}
+		sb.WriteString("&")
+		return canonRender(*x, sb)
+	case *smap:
+		if x == nil || x.len() == 0 {
+			sb.WriteString("map[]") // json omitempty: nil and empty maps encode alike
+			break
+		}
+		// sorted by rendered key, as encoding/json sorts map keys
+		var items []string
+		for _, e := range x.live() {
+			var kb, vb strings.Builder
+			if !canonRender(e.key, &kb) || !canonRender(e.val, &vb) {
+				return false
+			}
+			items = append(items, kb.String()+":"+vb.String())
+		}
+		sortStrings(items)
+		sb.WriteString("map[" + strings.Join(items, ",") + "]")
+	default:
+		return false
+	}
+	return true
+}
+
+func init() {
+	externals["encoding/json.Marshal"] = func(fr *frame, a []value) value {
+		var sb strings.Builder
+		// symbolic booleans are decided here (a fork each) so that the rendering, and
+		// with it the cache key, is a concrete injective function of the value
+		a[0] = fr.i.decideBools(a[0])
+		if canonRender(a[0], &sb) {
+			s := sb.String()
+			out := make([]value, len(s))
+			for k := 0; k < len(s); k++ {
+				out[k] = s[k]
+			}
+			return tuple{out, iface{}}
+		}
+		return tuple{fr.i.env.marshal("json", a[0]), iface{}}
+	}
+	externals["crypto/sha256.Sum256"] = func(fr *frame, a []value) value {
+		data := a[0].([]value)
+		bs := make([]byte, len(data))
+		for k, b := range data {
+			c, ok := b.(uint8)
+			if !ok {
+				fr.i.abort(abortUnsupported, "sha256 of symbolic bytes")
+			}
+			bs[k] = c
+		}
+		h := sha256.Sum256(bs)
+		out := make(array, 32)
+		for k := range h {
+			out[k] = h[k]
+		}
+		return out
+	}
+}
+
+// decideBools replaces symbolic booleans inside v by decided concrete ones.
+func (i *interpreter) decideBools(v value) value {
+	switch x := v.(type) {
+	case *Sym:
+		if x.K == types.Bool {
+			return i.truth(x, "json.Marshal bool")
+		}
+		return v
+	case structure:
+		out := make(structure, len(x))
+		for k := range x {
+			out[k] = i.decideBools(x[k])
+		}
+		return out
+	case iface:
+		return iface{t: x.t, v: i.decideBools(x.v)}
+	case *value:
+		if x == nil {
+			return v
+		}
+		c := i.decideBools(*x)
+		return &c
 	}
 	return v
 }
